@@ -340,6 +340,18 @@ theorem right_order_of_constructed_ideal (p : ℤ) (x : Elem) (N : ℤ) (O O' : 
   exact (right_order_exact p (createFromPrimitive p x N O prev) O' h1
     (create_from_primitive_invertible p x N O prev nx ho hg hx hxO hprim hn hn0 hcop) h).1
 
+/-- **`quat_connecting_ideal` returns `N·O₁·O₂`**, `N = quat_lattice_index(O₁ ∩ O₂, O₁)`; for rings with 1 it satisfies the
+    defining inclusions of a connecting ideal: `O₁·I ⊆ I` and `I·O₂ ⊆ I`. -/
+theorem connecting_ideal_spec (p : ℤ) (O1 O2 : Lattice) (prev : ℤ) (h1 : O1.denom ≠ 0) (h2 : O2.denom ≠ 0)
+    (hone : (1 : H p) ∈ hLat p O2) :
+    let N := latIndex (latIntersect O1 O2) O1
+    hLat p (connectingIdeal p O1 O2 prev).lattice = nsmul' N (hLat p O1 * hLat p O2) ∧
+    (hLat p O1 * hLat p O1 ≤ hLat p O1 →
+      hLat p O1 * hLat p (connectingIdeal p O1 O2 prev).lattice ≤ hLat p (connectingIdeal p O1 O2 prev).lattice) ∧
+    (hLat p O2 * hLat p O2 ≤ hLat p O2 →
+      hLat p (connectingIdeal p O1 O2 prev).lattice * hLat p O2 ≤ hLat p (connectingIdeal p O1 O2 prev).lattice) :=
+  connectingIdeal_spec p O1 O2 prev h1 h2 hone
+
 /-- the invertibility hypothesis `N(I) ∈ Ī·I` follows from a successful generator search -/
 theorem norm_mem_conj_mul_of_generator_found (p : ℤ) (I : LeftIdeal) (n bound : ℤ) (g : Elem)
     (hd : I.lattice.denom ≠ 0) (hord : IsOrder (hLat p I.order))
